@@ -2710,7 +2710,7 @@ class HasTraits(CHasTraits, metaclass=MetaHasTraits):
                             self._sync_trait_modified, trait_name, remove=True
                         )
 
-                        if is_list:
+                        if self._is_list_trait(trait_name):
                             self._on_trait_change(
                                 self._sync_trait_items_modified,
                                 trait_name + "_items",
@@ -2753,10 +2753,13 @@ class HasTraits(CHasTraits, metaclass=MetaHasTraits):
 
             if len(dic) == 0:
                 self._on_trait_change(self._sync_trait_modified, trait_name)
-                if is_list:
-                    self._on_trait_change(
-                        self._sync_trait_items_modified, trait_name + "_items"
-                    )
+            if is_list:
+                # Not only for the first partner: an earlier partner may
+                # have been a non-list trait. Registering the handler again
+                # is a no-op.
+                self._on_trait_change(
+                    self._sync_trait_items_modified, trait_name + "_items"
+                )
             dic[key] = value
 
         if mutual:
@@ -2811,6 +2814,10 @@ class HasTraits(CHasTraits, metaclass=MetaHasTraits):
                 if object is None:
                     # The partner was garbage collected while the change
                     # was being propagated.
+                    continue
+                if not object._is_list_trait(object_name):
+                    # A partner that is not a list trait takes whole values
+                    # only; item changes are not replayed on it.
                     continue
                 if object_name not in object._get_sync_trait_info()[""]:
                     try:
